@@ -56,6 +56,9 @@ def run(chk, repo, tier):
             facts = p.interp.facts
             if (has(facts, onQ, False) or has(facts, onP, False)) and p.outcome != "raise":
                 bad.append(f"off-curve argument not refused: returns {show(p.value)[:60]} on path {' '.join(p.branch_lines())}")
+            if p.outcome == "return" and not (has(facts, onQ, True) and has(facts, onP, True)):
+                bad.append(f"returns {show(p.value)[:40]} without having tested is_on_curve(Q, b2) and is_on_curve(P, b) "
+                           f"(an off-curve argument is accepted) on path {' '.join(p.branch_lines())}")
         chk.ob("C05.R1", f.qualname, "on-curve guards dominate the Miller loop with raising false edges", not bad and nsink >= 1,
                "; ".join(bad[:2]) or f"{len(paths)} paths, {nsink} sink evaluation(s)", f.where)
         # infinity
